@@ -833,3 +833,31 @@ Proof.
   split; [eexists; split; reflexivity|]. split; [eexists; split; reflexivity|].
   split; [eexists; split; reflexivity|reflexivity].
 Qed.
+
+(* ====================================================================== *)
+(* 9. the statement-by-statement model of the full-tiling test refines to   *)
+(*    the abstract one                                                      *)
+(* ====================================================================== *)
+Lemma scan_max_spec : forall ps mr mc,
+  scan_max ps mr mc = (max_from mr (map fst ps), max_from mc (map snd ps)).
+Proof.
+  unfold max_from. induction ps as [|[r c] ps IH]; intros mr mc; cbn [scan_max map fold_left fst snd]; [reflexivity|].
+  rewrite IH. f_equal; f_equal.
+  - destruct (mr <? r) eqn:E; lia.
+  - destruct (mc <? c) eqn:E; lia.
+Qed.
+
+Lemma list_eqb_zip : forall e ps,
+  list_eqb e ps = Nat.eqb (length e) (length ps) && zip_all_eq e ps.
+Proof.
+  induction e as [|[re ce] e IH]; intros [|[r c] ps]; cbn [list_eqb length Nat.eqb zip_all_eq andb]; try reflexivity.
+  rewrite IH. unfold pair_eqb. cbn [fst snd]. rewrite (Z.eqb_sym r re), (Z.eqb_sym c ce).
+  destruct (re =? r); destruct (ce =? c); cbn [negb orb andb]; try reflexivity;
+    now rewrite ?andb_false_r.
+Qed.
+
+Lemma tiled_full_code_refines : forall ps th tw, are_tiled_full_code ps th tw = are_tiled_full ps th tw.
+Proof.
+  intros. unfold are_tiled_full_code, are_tiled_full. rewrite scan_max_spec, list_eqb_zip.
+  destruct (Nat.eqb _ _); reflexivity.
+Qed.
